@@ -215,6 +215,10 @@ def scenarios(tier):
         # a newcomer whose priority lies strictly between two registered levels / below the lowest / above the highest
         for pr in (0.5, 1.5, 2.5, -0.5, 3.5):
             yield {'leg': 'many_systems', 'prios': big, 't': 0, 'steps': 3, 'acts': [{'kind': 'add', 'prio': pr, 'actor': actor}]}
+        # ... and with a single system at the very bottom / at the very top
+        for pr in (-0.5, -1.5, 3.5, 4.5):
+            yield {'leg': 'many_systems', 'prios': [4] + big[:-1] + [-1], 't': 0, 'steps': 3,
+                   'acts': [{'kind': 'add', 'prio': pr, 'actor': actor}]}
     # forty systems in bands plus one registered LAST whose priority lies mid-order: it retires (removes itself) and
     # registers a successor of the same priority in the same timestep
     for band in (3, 2, 1):
